@@ -54,6 +54,8 @@ func c18RunChild(c *Ctx, name string, watchdog int, args ...string) (out string,
 	full := append([]string{"-s", "QUIT", strconv.Itoa(watchdog), exe, "child"}, args...)
 	cmd := exec.Command("timeout", full...)
 	cmd.Env = append(os.Environ(), "GORACE=halt_on_error=0 exitcode=0 log_path="+filepath.Join(dir, "race"), "MOSPROXY_JSONLOGGER=1",
+		"VERIF_POINTS=fasthttp.serve=sleep(30ms,50.0%)", // hook H9: half of the fasthttp listeners start serving late, after whatever comes next in start-up
+
 		"VERIF_POOL_LOG="+filepath.Join(dir, "pool.log"), "VERIF_HOOK_LOG="+filepath.Join(dir, "hook.log"), "C18_DIR="+dir)
 	f, _ := os.Create(filepath.Join(dir, "out"))
 	cmd.Stdout, cmd.Stderr = f, f
